@@ -4,6 +4,7 @@ mod interp;
 mod known;
 mod monitors;
 mod monitors2;
+mod analysis;
 mod profiles;
 mod rngx;
 mod script;
@@ -102,7 +103,7 @@ fn finish(mut w: World, mut mon: Mon, seed: u64, hist: u64) -> HistOut {
     }
 }
 
-pub fn run_history(prop: &str, seed: u64, hist: u64, keys: &Rc<Vec<interp::Keys>>, known: &Rc<known::Known>) -> HistOut {
+pub fn run_history_inner(prop: &str, seed: u64, hist: u64, keys: &Rc<Vec<interp::Keys>>, known: &Rc<known::Known>) -> HistOut {
     let mut rng = Rng::new(mix3(seed, rngx::str_hash(prop), hist));
     let ids: Vec<String> = keys.iter().map(|k| k.id.clone()).collect();
     let sc = profiles::build(prop, seed, hist, &mut rng, &ids);
@@ -116,7 +117,7 @@ pub fn run_history(prop: &str, seed: u64, hist: u64, keys: &Rc<Vec<interp::Keys>
     }
     let sub_keys = Rc::new(sub_keys(keys, np));
     let mut w = World::new(sc, sub_keys);
-    let mut mon = Mon::new(prop, w.peers.len(), known.clone());
+    let mut mon = Mon::new(prop, w.peers.len(), known.clone(), &w.sc.ast.clone());
     let mut d = driver::Driver::new(&w, &mut rng);
     if w.sc.fault_cfg.contains_key("byz") {
         d.byz = Some(rng.below(np));
@@ -140,12 +141,12 @@ fn clone_keys(k: &interp::Keys) -> interp::Keys {
     interp::Keys { kp: k.kp.clone(), id: k.id.clone(), secret: k.secret.clone(), format: k.format }
 }
 
-pub fn replay_history(rf: &ReplayFile, keys: &Rc<Vec<interp::Keys>>, known: &Rc<known::Known>) -> HistOut {
+pub fn replay_history_inner(rf: &ReplayFile, keys: &Rc<Vec<interp::Keys>>, known: &Rc<known::Known>) -> HistOut {
     let sc = rf.scenario.clone();
     let np = sc.np;
     let sub = Rc::new(sub_keys(keys, np));
     let mut w = World::new(sc, sub);
-    let mut mon = Mon::new(&rf.prop, w.peers.len(), known.clone());
+    let mut mon = Mon::new(&rf.prop, w.peers.len(), known.clone(), &w.sc.ast.clone());
     for (eid, ev) in &rf.events {
         if mon.stop {
             break;
@@ -284,7 +285,13 @@ fn worker(args: &[String]) {
         scripts.insert(rngx::str_hash(&h.sc.script));
         inter.insert(h.interleaving ^ rngx::str_hash(&h.sc.script));
         states.extend(h.states.iter().cloned());
-        out.digests.insert(i, h.digest.clone());
+        // byte-offset corruption acts on the encoded bytes, whose internal map order legitimately differs between
+        // hash seeds: such histories are "same inputs" only within one process (in-process re-execution covers them)
+        if !h.sc.fault_cfg.contains_key("corrupt") {
+            out.digests.insert(i, h.digest.clone());
+        } else {
+            out.digests.insert(i, format!("X{}", h.digest)); // kept for the simulator's own determinism proof only
+        }
         for k in &h.known_hits {
             if out.known.len() < 2000 {
                 out.known.push((k.known.clone().unwrap_or_default(), format!("{}:{}", k.prop, k.tag), i));
@@ -298,7 +305,7 @@ fn worker(args: &[String]) {
                     detail: v.detail.clone(),
                     seed,
                     hist: i,
-                    hash_seed,
+                    hash_seed: hist_hash_seed(seed, i),
                     scenario: h.sc.clone(),
                     events: h.events.clone(),
                     minimised: false,
@@ -505,7 +512,8 @@ fn spawn_worker(exe: &str, prop: &str, seed: u64, start: u64, stride: u64, count
     std::process::Command::new(exe)
         .args(["worker", prop, &seed.to_string(), &start.to_string(), &stride.to_string(), &count.to_string(), out, journal, &deadline.to_string()])
         .env("LD_PRELOAD", shim)
-        .env("VERIF_HASH_SEED", hash_seed.to_string())
+        .env("VERIF_HASH_SEED", "0")
+        .env("VERIF_HASH_SALT", hash_seed.to_string())
         .stdout(std::process::Stdio::null())
         .spawn()
         .expect("spawn worker")
@@ -553,7 +561,7 @@ fn cmd_run(prop: &str, tier: &str, seed: u64, workers: u64, hists_override: Opti
     for wi in 0..workers {
         let out = format!("{tmp}/out-{wi}.json");
         let j = format!("{tmp}/journal-{wi}");
-        let hs = 1000 + seed * 31 + wi;
+        let hs = std::env::var("VERIF_HASH_SALT").ok().and_then(|s| s.parse().ok()).unwrap_or(0u64); // same salt for all workers
         kids.push((wi, spawn_worker(&exe, prop, seed, wi, workers, per, &out, &j, hs, wall), out, j, wi, per, hs));
     }
     let mut agg = WorkerOut::default();
@@ -606,12 +614,13 @@ fn cmd_run(prop: &str, tier: &str, seed: u64, workers: u64, hists_override: Opti
     }
     // C20: second pass under different hash seeds, compare per-history digests
     let mut c20_mismatch: Vec<u64> = vec![];
+    let mut c20_addr_violation: Option<String> = None;
     if prop == "C20" {
         let mut kids = vec![];
         for wi in 0..workers {
             let out = format!("{tmp}/outB-{wi}.json");
             let j = format!("{tmp}/journalB-{wi}");
-            let hs = 777_000 + seed * 17 + wi * 3;
+            let hs = 1 + std::env::var("VERIF_HASH_SALT").ok().and_then(|s| s.parse().ok()).unwrap_or(0u64); // the other hash-seed family
             kids.push((spawn_worker(&exe, prop, seed, wi, workers, per, &out, &j, hs, wall), out));
         }
         let mut digests_b: BTreeMap<u64, String> = BTreeMap::new();
@@ -623,12 +632,48 @@ fn cmd_run(prop: &str, tier: &str, seed: u64, workers: u64, hists_override: Opti
                 }
             }
         }
+        let mut addr_only = 0u64;
+        let mut cid_err_only = 0u64;
         for (h, d) in &agg.digests {
+            if d.starts_with('X') {
+                continue;
+            }
             if let Some(d2) = digests_b.get(h) {
                 if d != d2 {
-                    c20_mismatch.push(*h);
+                    // strict : addresses masked : addresses masked and code-8 messages dropped
+                    let p1: Vec<&str> = d.split(':').collect();
+                    let p2: Vec<&str> = d2.split(':').collect();
+                    if p1.len() == 3 && p2.len() == 3 && p1[1] == p2[1] {
+                        addr_only += 1;
+                    } else if p1.len() == 3 && p2.len() == 3 && p1[2] == p2[2] {
+                        cid_err_only += 1;
+                    } else {
+                        c20_mismatch.push(*h);
+                    }
                 } else {
                     nontrivial.insert(*h ^ 0xC20);
+                }
+            }
+        }
+        if cid_err_only > 0 {
+            let taint = BTreeSet::new();
+            match known.classify("C20", "which-cid-store-error-is-reported", &taint, "processes with different hash seeds report different CID store verification errors (code 8) for the same corrupted data") {
+                Some(k) => agg.known.push((k, "C20:which-cid-store-error-is-reported".into(), 0)),
+                None => {
+                    let path = format!("{vd}/replays/C20-{seed}-cid-store-error.json");
+                    std::fs::write(&path, serde_json::json!({"prop":"C20","seed":seed,"kind":"which CID store verification error is reported depends on the hash seed","histories":cid_err_only}).to_string()).unwrap();
+                    c20_addr_violation = Some(path);
+                }
+            }
+        }
+        if addr_only > 0 {
+            let taint = BTreeSet::new();
+            match known.classify("C20", "message-contains-memory-addresses", &taint, "ArchiveError ptr: 0x (processes differ only in printed addresses)") {
+                Some(k) => agg.known.push((k, "C20:message-contains-memory-addresses".into(), 0)),
+                None => {
+                    let path = format!("{vd}/replays/C20-{seed}-addresses.json");
+                    std::fs::write(&path, serde_json::json!({"prop":"C20","seed":seed,"kind":"error message contains memory addresses; differs between processes","histories":addr_only}).to_string()).unwrap();
+                    c20_addr_violation = Some(path);
                 }
             }
         }
@@ -677,6 +722,9 @@ fn cmd_run(prop: &str, tier: &str, seed: u64, workers: u64, hists_override: Opti
             harness_error = true;
         }
     }
+    if let Some(path) = &c20_addr_violation {
+        lines.push(format!("VIOLATION property=C20 replay={path}"));
+    }
     for h in &c20_mismatch {
         let path = format!("{vd}/replays/C20-{seed}-{h}.json");
         std::fs::write(&path, serde_json::json!({"prop":"C20","seed":seed,"hist":h,"kind":"digest mismatch between hash seeds","rerun": format!("sim digest C20 {seed} {h} under two VERIF_HASH_SEED values")}).to_string()).unwrap();
@@ -689,6 +737,14 @@ fn cmd_run(prop: &str, tier: &str, seed: u64, workers: u64, hists_override: Opti
     }
     for (k, n) in &known_seen {
         println!("KNOWN-FINDING: property={prop} {k} (hit in {n} sampled histories)");
+    }
+    if let Ok(p) = std::env::var("VERIF_DIGESTS_OUT") {
+        // determinism proof: per-history digests of the full event log (normalised flavour), sorted by history
+        let mut s = String::new();
+        for (h, d) in &agg.digests {
+            s.push_str(&format!("{h} {}\n", d.split(':').nth(2).unwrap_or(d)));
+        }
+        std::fs::write(p, s).unwrap();
     }
     let wall_s = t0.elapsed().as_secs_f64();
     let ev = serde_json::json!({
@@ -843,11 +899,53 @@ fn main() {
             0
         }
         "run" => cmd_run(&args[2], &args[3], seed, workers, std::env::var("VERIF_HISTS").ok().and_then(|s| s.parse().ok())),
-        "replay" => cmd_replay(&args[2]),
-        "minimise" => cmd_minimise(&args[2], &args[3]),
+        "replay" => {
+            std::env::set_var("VERIF_REPLAYING", "1");
+            cmd_replay(&args[2])
+        }
+        "minimise" => {
+            std::env::set_var("VERIF_REPLAYING", "1");
+            cmd_minimise(&args[2], &args[3])
+        }
         "hist" => cmd_hist(&args[2], args[3].parse().unwrap(), args[4].parse().unwrap()),
         "digests" => cmd_digests(&args[2], args[3].parse().unwrap(), args[4].parse().unwrap()),
         _ => 2,
     };
     std::process::exit(code);
+}
+
+// ------------------------------------------------------------------ one fresh thread per history
+/// HashMap keys of a history are a pure function of (VERIF_SEED, history index, VERIF_HASH_SALT):
+/// the shim reads VERIF_HASH_SEED when the fresh thread creates its first map.
+pub fn hist_hash_seed(seed: u64, hist: u64) -> u64 {
+    let salt: u64 = std::env::var("VERIF_HASH_SALT").ok().and_then(|s| s.parse().ok()).unwrap_or(0);
+    mix3(seed, hist, 0x4A5 ^ salt.wrapping_mul(0x9e3779b97f4a7c15)) >> 1
+}
+fn in_thread<T: Send + 'static>(hash_seed: u64, f: impl FnOnce() -> T + Send + 'static) -> T {
+    std::env::set_var("VERIF_HASH_SEED", hash_seed.to_string());
+    let mb: usize = std::env::var("VERIF_STACK_MB").ok().and_then(|s| s.parse().ok()).unwrap_or(64);
+    let h = std::thread::Builder::new().stack_size(mb << 20).spawn(f).expect("spawn history thread");
+    match h.join() {
+        Ok(v) => v,
+        Err(_) => {
+            eprintln!("HARNESS-ERROR: the simulator itself panicked (see message above)");
+            std::process::exit(2);
+        }
+    }
+}
+pub fn run_history(prop: &str, seed: u64, hist: u64, _keys: &Rc<Vec<interp::Keys>>, _known: &Rc<known::Known>) -> HistOut {
+    let p = prop.to_string();
+    in_thread(hist_hash_seed(seed, hist), move || {
+        let keys = make_keys();
+        let known = Rc::new(known::Known::load(&format!("{}/known_findings.json", verif_dir())));
+        run_history_inner(&p, seed, hist, &keys, &known)
+    })
+}
+pub fn replay_history(rf: &ReplayFile, _keys: &Rc<Vec<interp::Keys>>, _known: &Rc<known::Known>) -> HistOut {
+    let rf2 = rf.clone();
+    in_thread(rf.hash_seed, move || {
+        let keys = make_keys();
+        let known = Rc::new(known::Known::load(&format!("{}/known_findings.json", verif_dir())));
+        replay_history_inner(&rf2, &keys, &known)
+    })
 }
